@@ -101,6 +101,9 @@ TWINS = [
     (["--set=@w=(concat :p .s)", "--set=p=\"<\"", "--select=(concat @w (set \"p\" \">\" @w)) =x"], ["--select=(concat (concat \"<\" .s) (concat \">\" .s)) =x"]),
     (["--set=@m=(+ :x .n)", "--select=(set \"x\" 10 @m) =x", "--select=(set \"x\" 10 (map .l (+ . @m))) =y"],
      ["--select=(+ 10 .n) =x", "--select=(map .l (+ . (+ 10 .n))) =y"]),        # a macro is expanded where it is used: `.` is the element there
+    # names are text: any characters
+    (["--set=é=5", "--select=(+ :é 1) =x", "--select=(set \"変数\" 2 (* :変数 :é)) =y"], ["--select=(+ 5 1) =x", "--select=(* 2 5) =y"]),
+    (["--set=@größe=(size .l)", "--select=@größe =x", "--select=(define \"名\" (+ .n 1) (+ @名 @größe)) =y"], ["--select=(size .l) =x", "--select=(+ (+ .n 1) (size .l)) =y"]),
     # a macro sees the enclosing inputs and the bindings of the place where it is used, every time it is used
     (["--set=@up=(+ . ^.n)", "--select=(map .l @up) =x", "--select=(map [1, 1, 2] @up) =y"], ["--select=(map .l (+ . ^.n)) =x", "--select=(map [1, 1, 2] (+ . ^.n)) =y"]),
     (["--set=@pp=(concat ^.s ^^.t)", "--select=(map .ls (| . @pp)) =x"], ["--select=(map .ls (| . (concat ^.s ^^.t))) =x"]),
